@@ -28,7 +28,8 @@ RULE = ('seeds: the repository\'s ELF test binaries under 12 KiB plus generated 
 ASSUMPTIONS = [
     'time is logical (function entries, taken jumps and stream operations of the traced stream); the '
     'budget constants sit about 10x above the largest per-byte ratio observed over all corrupted cases (reported in the evidence)',
-    'memory is the tracemalloc peak for BytesIO inputs; a real file object may buffer differently',
+    'memory is the tracemalloc peak for BytesIO inputs; every other measured case reads a real file on disk whose read(n) requests '
+    'are watched (and served clipped to the file size, so no gigabyte buffer is really allocated): a request beyond the bound is the observation',
     'any exception ends a battery step normally (the statement allows raising there); only the '
     'constructor is required to raise ELFError',
 ]
@@ -121,12 +122,48 @@ def battery(ef):
     return len(secs), len(segs)
 
 
+class AskedReads:
+    """A real file whose read(n) is watched: the request is recorded with the library frame that made it and then served
+    clipped to the file size, so that no gigabyte buffer is really allocated while the request itself is the observation."""
+
+    def __init__(self, f, size):
+        self._f, self._size, self.worst = f, size, None
+
+    def read(self, n=-1):
+        if n is not None and n > self._size + 4096:
+            if self.worst is None or n > self.worst[0]:
+                import sys as _sys
+                fr = _sys._getframe(1)
+                while fr is not None and '/elftools/' not in fr.f_code.co_filename:
+                    fr = fr.f_back
+                self.worst = (n, '%s:%s' % (os.path.basename(fr.f_code.co_filename), fr.f_code.co_name) if fr else '?')
+            n = self._size + 4096
+        return self._f.read(n)
+
+    def __getattr__(self, name):
+        return getattr(self._f, name)
+
+
 def run_one(sh, data, what, memcheck):
     """-> outcome class; records violations."""
     from elftools.elf.elffile import ELFFile
     from elftools.common.exceptions import ELFError
     meter = _S['meter']
     st = TracedBytesIO(data)
+    disk = None
+    if memcheck and len(data) % 2 == 0:
+        # every other measured case reads a real file on disk (a buffered reader allocates what it is ASKED to read, a
+        # BytesIO only what is there: a size field believed without a look at the file shows here)
+        import tempfile
+        if 'dir' not in _S:
+            _S['dir'] = tempfile.mkdtemp(prefix='vf-c19-')
+            import atexit, shutil
+            atexit.register(shutil.rmtree, _S['dir'], True)
+        path = os.path.join(_S['dir'], 'case.bin')
+        with open(path, 'wb') as f:
+            f.write(data)
+        disk = st = AskedReads(open(path, 'rb'), len(data))
+        sh.counters['cases_read_from_a_file_on_disk'] += 1
     budget = STEP_A + STEP_B * len(data)
     if memcheck:
         tracemalloc.start()
@@ -157,6 +194,13 @@ def run_one(sh, data, what, memcheck):
                 return 'budget'
     finally:
         steps = meter.stop()
+        if disk is not None:
+            disk.close()
+            st = TracedBytesIO(b'')         # (no stream operation count for the real file)
+            if disk.worst and disk.worst[0] > MEM_C + MEM_D * len(data):
+                sh.note_violation('C19:a read of far more bytes than the file holds is requested from a real file (the buffered reader '
+                                  'allocates the requested size)@%s' % disk.worst[1], what=what, size=len(data), requested=disk.worst[0],
+                                  input=data[:128])
         if memcheck:
             peak = tracemalloc.get_traced_memory()[1]
             tracemalloc.stop()
